@@ -5,6 +5,7 @@ import (
 	"os"
 	"runtime"
 	"sort"
+	"strings"
 	"sync"
 	"testing/synctest"
 	"time"
@@ -189,6 +190,19 @@ func (n *Net) PairsMatching(f func(link string, id int) bool) []int {
 		}
 		if f(p.link, p.id) {
 			out = append(out, p.id)
+		}
+	}
+	return out
+}
+
+// NodesByPrefix returns the nodes whose name starts with prefix, in creation order.
+func (n *Net) NodesByPrefix(prefix string) []*Node {
+	n.mu.Lock()
+	defer n.mu.Unlock()
+	var out []*Node
+	for _, nd := range n.nodes {
+		if strings.HasPrefix(nd.Name, prefix) {
+			out = append(out, nd)
 		}
 	}
 	return out
